@@ -13,6 +13,7 @@ use crate::{
     tables::{BlockEntry, BlockTable, HashEntry, HashTable, HiBlockTable},
 };
 use bytes::Bytes;
+use md5::{Digest, Md5};
 use std::collections::HashMap;
 use std::fs::{File, OpenOptions};
 use std::io::{Read, Seek, SeekFrom, Write};
@@ -117,6 +118,16 @@ pub struct MutableArchive {
     updated_block_table_pos: Option<u64>,
     /// Position of the hi-block table if one was written with the moved tables
     updated_hi_block_table_pos: Option<u64>,
+    /// MD5 digests of the tables as they were last written
+    table_digests: TableDigests,
+}
+
+/// MD5 digests of the stored (encrypted) tables, as kept in V4 headers
+#[derive(Debug, Clone, Copy, Default)]
+struct TableDigests {
+    hash_table: [u8; 16],
+    block_table: [u8; 16],
+    hi_block_table: [u8; 16],
 }
 
 impl MutableArchive {
@@ -157,6 +168,7 @@ impl MutableArchive {
             updated_hash_table_pos: None,
             updated_block_table_pos: None,
             updated_hi_block_table_pos: None,
+            table_digests: TableDigests::default(),
         })
     }
 
@@ -1250,6 +1262,9 @@ impl MutableArchive {
             None => (old_hash_pos, old_block_pos),
         };
 
+        // Digests of the tables as stored, for V4 headers
+        let mut digests = TableDigests::default();
+
         // Write hash table
         if let Some(hash_table) = &self.hash_table {
             let hash_table_pos = archive_offset + hash_table_rel;
@@ -1274,9 +1289,9 @@ impl MutableArchive {
             encrypt_block(&mut u32_buffer, key);
 
             // Write back
-            for &value in &u32_buffer {
-                self.file.write_all(&value.to_le_bytes())?;
-            }
+            let encrypted: Vec<u8> = u32_buffer.iter().flat_map(|v| v.to_le_bytes()).collect();
+            self.file.write_all(&encrypted)?;
+            digests.hash_table = Md5::digest(&encrypted).into();
         }
 
         // Write block table
@@ -1302,9 +1317,9 @@ impl MutableArchive {
             encrypt_block(&mut u32_buffer, key);
 
             // Write back
-            for &value in &u32_buffer {
-                self.file.write_all(&value.to_le_bytes())?;
-            }
+            let encrypted: Vec<u8> = u32_buffer.iter().flat_map(|v| v.to_le_bytes()).collect();
+            self.file.write_all(&encrypted)?;
+            digests.block_table = Md5::digest(&encrypted).into();
         }
 
         // A V3/V4 archive whose files reach beyond 4 GiB keeps its hi-block table. It
@@ -1322,7 +1337,9 @@ impl MutableArchive {
             }
             self.updated_hi_block_table_pos = Some(self.file.stream_position()? - archive_offset);
             self.file.write_all(&table_data)?;
+            digests.hi_block_table = Md5::digest(&table_data).into();
         }
+        self.table_digests = digests;
 
         if self.next_file_offset.is_some() {
             // Remember where the tables went; files added later in this session must
@@ -1353,65 +1370,99 @@ impl MutableArchive {
 
         // The header also has to follow tables that were moved behind appended data,
         // and the archive size has to cover them.
-        if header.format_version < FormatVersion::V3
-            && let (Some(_), Some(block_pos)) =
-                (self.updated_hash_table_pos, self.updated_block_table_pos)
+        if let (Some(hash_pos), Some(block_pos)) =
+            (self.updated_hash_table_pos, self.updated_block_table_pos)
         {
-            let block_len = self
-                .block_table
-                .as_ref()
-                .map_or(0, |t| t.entries().len() as u64 * 16);
-            header.archive_size = (block_pos + block_len) as u32;
+            let hash_len = header.hash_table_size as u64 * 16;
+            let block_len = header.block_table_size as u64 * 16;
+            let mut archive_size = block_pos + block_len;
+
+            header.hash_table_pos = hash_pos as u32;
+            header.block_table_pos = block_pos as u32;
+            if header.format_version >= FormatVersion::V2 {
+                header.hash_table_pos_hi = Some((hash_pos >> 32) as u16);
+                header.block_table_pos_hi = Some((block_pos >> 32) as u16);
+            }
+
+            if header.format_version >= FormatVersion::V3 {
+                let hi_block_len = match self.updated_hi_block_table_pos {
+                    Some(_) => header.block_table_size as u64 * 2,
+                    None => 0,
+                };
+                header.hi_block_table_pos = Some(self.updated_hi_block_table_pos.unwrap_or(0));
+                archive_size += hi_block_len;
+                header.archive_size_64 = Some(archive_size);
+
+                // The tables just written are the only ones. The HET/BET tables the
+                // archive came with describe the state before the change; a position
+                // of zero tells readers that there are none.
+                header.het_table_pos = Some(0);
+                header.bet_table_pos = Some(0);
+
+                // Stored sizes and digests of the tables (V4 headers)
+                if let Some(v4) = &mut header.v4_data {
+                    v4.hash_table_size_64 = hash_len;
+                    v4.block_table_size_64 = block_len;
+                    v4.hi_block_table_size_64 = hi_block_len;
+                    v4.het_table_size_64 = 0;
+                    v4.bet_table_size_64 = 0;
+                    v4.md5_hash_table = self.table_digests.hash_table;
+                    v4.md5_block_table = self.table_digests.block_table;
+                    v4.md5_hi_block_table = self.table_digests.hi_block_table;
+                    v4.md5_het_table = [0; 16];
+                    v4.md5_bet_table = [0; 16];
+                }
+            }
+
+            header.archive_size = archive_size.min(u32::MAX as u64) as u32;
             needs_update = true;
         }
 
         if needs_update {
-            // Seek to header position
-            self.file.seek(SeekFrom::Start(archive_offset))?;
+            let mut bytes = Vec::with_capacity(208);
+            bytes.extend_from_slice(b"MPQ\x1A"); // Signature
+            bytes.extend_from_slice(&header.header_size.to_le_bytes());
+            bytes.extend_from_slice(&header.archive_size.to_le_bytes());
+            bytes.extend_from_slice(&(header.format_version as u16).to_le_bytes());
+            bytes.extend_from_slice(&header.block_size.to_le_bytes());
+            bytes.extend_from_slice(&header.hash_table_pos.to_le_bytes());
+            bytes.extend_from_slice(&header.block_table_pos.to_le_bytes());
+            bytes.extend_from_slice(&header.hash_table_size.to_le_bytes());
+            bytes.extend_from_slice(&header.block_table_size.to_le_bytes());
 
-            // Write the header
-            self.file.write_all(b"MPQ\x1A")?; // Signature
-            self.file.write_all(&header.header_size.to_le_bytes())?;
-            self.file.write_all(&header.archive_size.to_le_bytes())?;
-            self.file
-                .write_all(&(header.format_version as u16).to_le_bytes())?;
-            self.file.write_all(&header.block_size.to_le_bytes())?;
-
-            // Use updated positions if available (for V3+), otherwise use original
-            let hash_pos = self
-                .updated_hash_table_pos
-                .unwrap_or(header.hash_table_pos as u64) as u32;
-            let block_pos = self
-                .updated_block_table_pos
-                .unwrap_or(header.block_table_pos as u64) as u32;
-
-            self.file.write_all(&hash_pos.to_le_bytes())?;
-            self.file.write_all(&block_pos.to_le_bytes())?;
-            self.file.write_all(&header.hash_table_size.to_le_bytes())?;
-            self.file
-                .write_all(&header.block_table_size.to_le_bytes())?;
-
-            // Write extended fields for v2+
+            // Extended fields for v2+
             if header.format_version >= FormatVersion::V2 {
-                self.file
-                    .write_all(&header.hi_block_table_pos.unwrap_or(0).to_le_bytes())?;
-                self.file
-                    .write_all(&header.hash_table_pos_hi.unwrap_or(0).to_le_bytes())?;
-                self.file
-                    .write_all(&header.block_table_pos_hi.unwrap_or(0).to_le_bytes())?;
+                bytes.extend_from_slice(&header.hi_block_table_pos.unwrap_or(0).to_le_bytes());
+                bytes.extend_from_slice(&header.hash_table_pos_hi.unwrap_or(0).to_le_bytes());
+                bytes.extend_from_slice(&header.block_table_pos_hi.unwrap_or(0).to_le_bytes());
             }
 
-            // Write v3+ fields
+            // v3+ fields. The BET position is stored before the HET position.
             if header.format_version >= FormatVersion::V3 {
-                self.file
-                    .write_all(&header.archive_size_64.unwrap_or(0).to_le_bytes())?;
-
-                let het_pos = header.het_table_pos.unwrap_or(0);
-                let bet_pos = header.bet_table_pos.unwrap_or(0);
-
-                self.file.write_all(&het_pos.to_le_bytes())?;
-                self.file.write_all(&bet_pos.to_le_bytes())?;
+                bytes.extend_from_slice(&header.archive_size_64.unwrap_or(0).to_le_bytes());
+                bytes.extend_from_slice(&header.bet_table_pos.unwrap_or(0).to_le_bytes());
+                bytes.extend_from_slice(&header.het_table_pos.unwrap_or(0).to_le_bytes());
             }
+
+            // v4 fields, closed by the digest of everything in the header before it
+            if let Some(v4) = &header.v4_data {
+                bytes.extend_from_slice(&v4.hash_table_size_64.to_le_bytes());
+                bytes.extend_from_slice(&v4.block_table_size_64.to_le_bytes());
+                bytes.extend_from_slice(&v4.hi_block_table_size_64.to_le_bytes());
+                bytes.extend_from_slice(&v4.het_table_size_64.to_le_bytes());
+                bytes.extend_from_slice(&v4.bet_table_size_64.to_le_bytes());
+                bytes.extend_from_slice(&v4.raw_chunk_size.to_le_bytes());
+                bytes.extend_from_slice(&v4.md5_block_table);
+                bytes.extend_from_slice(&v4.md5_hash_table);
+                bytes.extend_from_slice(&v4.md5_hi_block_table);
+                bytes.extend_from_slice(&v4.md5_bet_table);
+                bytes.extend_from_slice(&v4.md5_het_table);
+                let header_digest: [u8; 16] = Md5::digest(&bytes).into();
+                bytes.extend_from_slice(&header_digest);
+            }
+
+            self.file.seek(SeekFrom::Start(archive_offset))?;
+            self.file.write_all(&bytes)?;
         }
 
         Ok(())
